@@ -140,10 +140,19 @@ def run_C05(res):
         pos_line = ("position startpos" if fens[i].startswith("rnbqkbnr/pppppppp/8/8/8/8/PPPPPPPP/RNBQKBNR w KQkq - 0 1") and rnd.random() < 0.7
                     else "position fen " + fens[i]) + (" moves " + " ".join(toks) if toks else "")
         scripts.append(head + [pos_line, "print", "history", "go split 1", "quit"])
-    process_compare(res, scripts, "position/moves script")
+    # hand-built scripts first: castling in both notations from the standard start and from a Chess960 FEN, with the option on and off
+    g1 = "g1f3 g8f6 e2e3 e7e6 f1e2 f8e7"
+    for frc in ("true", "false"):
+        for start in ("position startpos", "position fen rnbqkbnr/pppppppp/8/8/8/8/PPPPPPPP/RNBQKBNR w KQkq - 0 1"):
+            for castles in ("e1h1 e8h8", "e1g1 e8g8", "e1h1 e8g8", "e1c1 e8c8 e1a1"):
+                scripts.insert(0, [f"setoption name UCI_Chess960 value {frc}", "isready", f"{start} moves {g1} {castles}", "print", "history", "go split 1",
+                                   "moves a2a3", "history", "quit"])
+        scripts.insert(0, [f"setoption name UCI_Chess960 value {frc}", "isready", "ucinewgame", f"position startpos moves {g1} e1h1", "history",
+                           "position fen bnrqkrnb/pppppppp/8/8/8/8/PPPPPPPP/BNRQKRNB w KQkq - 0 1 moves g1f3 g8f6 e1f1 e8f8 h1g2", "print", "history", "quit"])
+    process_compare(res, scripts, "position/moves script", as_property=True)
 
 
-def process_compare(res, scripts, what, builds=("release", "checked"), model=True):
+def process_compare(res, scripts, what, builds=("release", "checked"), model=True, as_property=False):
     mreq = []
     for sc in scripts:
         mreq.append("script w - " + "|".join(sc))
@@ -165,8 +174,13 @@ def process_compare(res, scripts, what, builds=("release", "checked"), model=Tru
                     exp.pop()
                 if got != exp:
                     k = next((i for i, (a, c) in enumerate(zip(got, exp)) if a != c), min(len(got), len(exp)))
-                    res.disagree(what + f" ({b} build)", " | ".join(sc)[:600], "line %d: %s" % (k, got[k] if k < len(got) else "<end>"),
-                                 "line %d: %s" % (k, exp[k] if k < len(exp) else "<end>"))
+                    if as_property:
+                        # the model's position/moves handling is proved to be the fold of specification-legal tokens (Props/C05, C09, C01, C02)
+                        res.fail("position/moves transcript (print, history) differs from the game prescribed by the rules", script=sc, build=b,
+                                 observed="line %d: %s" % (k, got[k] if k < len(got) else "<end>"), expected="line %d: %s" % (k, exp[k] if k < len(exp) else "<end>"))
+                    else:
+                        res.disagree(what + f" ({b} build)", " | ".join(sc)[:600], "line %d: %s" % (k, got[k] if k < len(got) else "<end>"),
+                                     "line %d: %s" % (k, exp[k] if k < len(exp) else "<end>"))
 
 
 def match_F3(f):
@@ -414,6 +428,17 @@ def run_C16(res):
     rnd.shuffle(pool)
     pool = pool[:200]
     fens = run_hx(["fenout " + p for p in pool]) + [None] * 10
+    # positions in which castling is legal, with the castling move in king-takes-rook (Chess960) notation
+    pats = [l for l in run_driver([f"gpattern {res.seed + 41} 0 {300 if res.tier == 'quick' else 6000} 1"]) if l and l != "bad-op"]
+    pm = run_hx_par(["moves " + p for p in pats])
+    castle960 = []
+    for p, ml in zip(pats, pm):
+        P = Pos(p)
+        cms = [m for m in parse_moves(ml) if (P.c0 >> m[1]) & 1]
+        if cms:
+            castle960.append((p, uci_oracle(P.with_(frc=1), rnd.choice(cms))))
+    cf = run_hx(["fenout " + p for p, _ in castle960])
+    castle960 = [(f, t) for f, (_, t) in zip(cf, castle960)]
 
     def movegen(f, rnd):
         return [rnd.choice(["e2e4", "e7e5", "g1f3", "b8c6", "e1g1", "d2d4", "zz"]) for _ in range(rnd.randrange(0, 4))]
@@ -427,6 +452,11 @@ def run_C16(res):
             pre.insert(0, "isready")
         f = rnd.choice(fens)
         posline = ("position startpos" if f is None else "position fen " + f) + rnd.choice(["", "", " moves e2e4", " moves zz"])
+        want960 = False
+        if castle960 and rnd.random() < 0.35:
+            cfen, ctok = rnd.choice(castle960)
+            posline = "position fen " + cfen + " moves " + ctok       # only understood when UCI_Chess960 is on
+            want960 = True
         # option changes may also sit between ucinewgame and position (a table that was shrunk, cleared and grown again
         # must still look freshly cleared)
         mid = []
@@ -436,11 +466,15 @@ def run_C16(res):
                 pre = pre + [posline, "go depth %d" % rnd.choice([3, 4, 5]), "setoption name Hash value %d" % rnd.choice([1, 2])]
             mid = ["setoption name Hash value %d" % rnd.choice([1, 2, 4, 16, 32])] + \
                   (["setoption name UCI_Chess960 value " + rnd.choice(["true", "false"])] if rnd.random() < 0.3 else [])
+        if want960:
+            pre = pre + ["setoption name UCI_Chess960 value true"]
+            mid = [l for l in mid if "UCI_Chess960" not in l]
         hash_mb, frc = options_after(pre + mid)
         for newgame in (True, False):
             queries = ["print", "history", "eval", "go split 1", "go perft 2"] + (["go depth %d" % rnd.choice([2, 3, 4])] if newgame else [])
             suffix = ["isready"] + (["ucinewgame"] if newgame else []) + mid + [posline] + queries + ["quit"]
-            fresh = [f"setoption name Hash value {hash_mb}", "setoption name UCI_Chess960 value " + ("true" if frc else "false")] + suffix
+            # the freshly started engine gets the option values and the position command only (no ucinewgame, no option changes in between)
+            fresh = [f"setoption name Hash value {hash_mb}", "setoption name UCI_Chess960 value " + ("true" if frc else "false"), "isready", posline] + queries + ["quit"]
             for b in (("release", "checked") if i % 4 == 0 else ("release",)):
                 r1 = run_engine(pre + suffix, b, timeout=40)
                 r2 = run_engine(fresh, b, timeout=40)
